@@ -33,13 +33,15 @@ type mChain struct {
 }
 
 type txMeta struct {
-	step    int
-	kind    string // transfer | ibtp | gov | vote | call | setup | raw
-	ibtp    *pb.IBTP
-	sender  *Key
-	proofOK bool // harness-side judgement: proof hashes to ibtp.Proof and satisfies the bound rule
-	note    string
-	local   bool
+	step     int
+	kind     string // transfer | ibtp | gov | vote | call | setup | raw
+	ibtp     *pb.IBTP
+	sender   *Key
+	proofOK  bool // harness-side judgement: proof hashes to ibtp.Proof and satisfies the bound rule
+	note     string
+	local    bool
+	call     *methodInfo
+	callArgs string
 }
 
 type pairT struct{ src, dst *mService }
@@ -63,6 +65,8 @@ type scn struct {
 	bal          *balModel
 	fatal        bool
 	fabsimProofs int
+	methods      []methodInfo
+	proposals    []string
 	step         int
 	inSetup      bool
 }
